@@ -47,6 +47,8 @@ pub enum BaseStream {
     },
     #[cfg(test)]
     Mock(Cursor<Vec<u8>>),
+    #[cfg(feature = "verif-hooks")]
+    Hooked(Box<dyn crate::verif_hooks::Transport>),
 }
 
 impl BaseStream {
@@ -59,6 +61,8 @@ impl BaseStream {
         debug!("trying to connect to {}:{}", host, port);
 
         let stream = match connect_url.scheme() {
+            #[cfg(feature = "verif-hooks")]
+            scheme if crate::verif_hooks::intercepts(&host, port, scheme, info) => crate::verif_hooks::take_dialled(),
             "http" => BaseStream::connect_tcp(&host, port, info)
                 .map(|(stream, timeout)| BaseStream::Plain { stream, timeout }),
             "https" => BaseStream::connect_tls(&host, port, info),
@@ -191,6 +195,8 @@ impl Read for BaseStream {
             BaseStream::Plain { stream, timeout } => read_timeout(stream, buf, timeout),
             BaseStream::Tls { stream, timeout } => read_timeout(stream, buf, timeout),
             BaseStream::Tunnel { stream } => stream.read(buf),
+            #[cfg(feature = "verif-hooks")]
+            BaseStream::Hooked(s) => s.read(buf),
             #[cfg(test)]
             BaseStream::Mock(s) => s.read(buf),
         }
@@ -204,6 +210,8 @@ impl Write for BaseStream {
             BaseStream::Plain { stream, .. } => stream.write(buf),
             BaseStream::Tls { stream, .. } => stream.write(buf),
             BaseStream::Tunnel { stream } => stream.write(buf),
+            #[cfg(feature = "verif-hooks")]
+            BaseStream::Hooked(s) => s.write(buf),
             #[cfg(test)]
             _ => Ok(0),
         }
@@ -215,6 +223,8 @@ impl Write for BaseStream {
             BaseStream::Plain { stream, .. } => stream.flush(),
             BaseStream::Tls { stream, .. } => stream.flush(),
             BaseStream::Tunnel { stream } => stream.flush(),
+            #[cfg(feature = "verif-hooks")]
+            BaseStream::Hooked(s) => s.flush(),
             #[cfg(test)]
             _ => Ok(()),
         }
